@@ -20,7 +20,9 @@ PROP = 'C08'
 REQUIRES = ['Level.Model']
 RULE = ('Every stimulus function / factory of psiaudio.stim with a level (tone, ToneFactory, ramped_tone, sam_tone, SAMToneFactory, '
         'chirp, ChirpFactory, ClickFactory, bandlimited_click (rms / peak), BandlimitedClickFactory, broadband_noise, '
-        'BroadbandNoiseFactory, bandlimited_noise, bandlimited_fir_noise (equalized or not), shaped_noise, notch_noise, load_wav '
+        'BroadbandNoiseFactory, bandlimited_noise, BandlimitedNoiseFactory (first chunk after construction and after reset(), '
+        'discard_initial_samples False / True, non-default roll-off and attenuations), bandlimited_fir_noise (equalized or not, '
+        'windows, max_correction), shaped_noise (windows), notch_noise (two Q), load_wav '
         '/ WavFileFactory (int16 and float32 files, pe / rms / no normalisation, resampled), SquareWaveFactory, and envelope / '
         'gate / SAM-envelope / repeat transforms around a carrier), each run at (L, +), (L + d, +), (L + 20, +) and (L, -) through '
         'FlatCalibration, InterpCalibration, PointCalibration (where the stimulus can be generated with it) and without '
@@ -179,14 +181,25 @@ def _build(case, level, pol):
         return np.concatenate([f.next(n // 4), f.next(n - n // 4)])
     if t == 'bandlimited_noise':
         return stim.bandlimited_noise(fs, level, P['fl'], P['fh'], P['dur'], seed=P['seed'], calibration=cal, **kw)
+    if t == 'BandlimitedNoiseFactory':
+        # the FIRST chunk after construction and the first chunk after reset(), with every constructor option given
+        f = stim.BandlimitedNoiseFactory(fs, P['seed'], level, P['fl'], P['fh'], P['rolloff'], P['pass_att'], P['stop_att'],
+                                         calibration=cal, discard_initial_samples=P['discard'], **kw)
+        first = f.next(P['n'])
+        f.next(13)
+        f.reset()
+        return np.concatenate([first, f.next(P['n'])])
     if t == 'bandlimited_fir_noise':
         f = stim.BandlimitedFIRNoiseFactory(fs, P['fl'], P['fh'], level, ntaps=P['ntaps'], seed=P['seed'], calibration=cal,
-                                            equalize=P['equalize'], audiogram_weighting=P.get('weighting'), **kw)
+                                            equalize=P['equalize'], audiogram_weighting=P.get('weighting'),
+                                            window=P.get('window', 'hann'),
+                                            max_correction=np.inf if P.get('max_correction') is None else P['max_correction'], **kw)
         return f.next(int(round(P['dur'] * fs)))
     if t == 'shaped_noise':
         gains = dict(GAINS)
         gains[fs / 2] = 0
-        return stim.shaped_noise(fs, level, gains, P['dur'], ntaps=P['ntaps'], seed=P['seed'], calibration=cal, **kw)
+        return stim.shaped_noise(fs, level, gains, P['dur'], ntaps=P['ntaps'], seed=P['seed'], calibration=cal,
+                                 window=P.get('window', 'hann'), **kw)
     if t == 'notch_noise':
         return stim.notch_noise(fs, P['f'], P['q'], level, P['dur'], seed=P['seed'], calibration=cal, **kw)
     if t == 'wav':
@@ -210,7 +223,7 @@ def _build(case, level, pol):
     raise KeyError(t)
 
 
-HAS_POLARITY = {'tone', 'tone_duration', 'ToneFactory', 'sam_tone', 'SAMToneFactory', 'click', 'broadband_noise',
+HAS_POLARITY = {'BandlimitedNoiseFactory', 'tone', 'tone_duration', 'ToneFactory', 'sam_tone', 'SAMToneFactory', 'click', 'broadband_noise',
                 'BroadbandNoiseFactory', 'bandlimited_noise', 'bandlimited_fir_noise', 'shaped_noise', 'notch_noise', 'cos2_tone',
                 'gate_noise', 'sam_env_noise', 'repeat_click'}
 # round-off of the arithmetic each stimulus uses, relative to the peak
@@ -264,7 +277,7 @@ def _impl_stim(case):
             if len(y3) == len(y1) and len(y1):
                 res['y3'] = [float(y3[i]) for i in res.get('idx', _pick(len(y1)))]
         res['level'] = _measure(case, y1)
-        if case['type'] == 'bandlimited_noise':
+        if case['type'] in ('bandlimited_noise', 'BandlimitedNoiseFactory'):
             res['kappa'] = _iir_roundoff(case, L, y1)
         return res
     return _try(run)
@@ -277,7 +290,14 @@ def _iir_roundoff(case, level, y):
     from scipy import signal
     from psiaudio import stim
     fs, P = case['fs'], case['par']
-    f = stim.BandlimitedNoiseFactory(fs, P['seed'], level, P['fl'], P['fh'], 1, 1, 80, calibration=_mkcal(case['cal']))
+    f = stim.BandlimitedNoiseFactory(fs, P['seed'], level, P['fl'], P['fh'], P.get('rolloff', 1), P.get('pass_att', 1),
+                                     P.get('stop_att', 80), calibration=_mkcal(case['cal']))
+    if case['type'] == 'BandlimitedNoiseFactory':
+        # the round-off of this band-pass is measured on a factory built with the DEFAULT start-up (first second discarded),
+        # not on the output under test: it must not absorb what a start-up option does to that output
+        y = f.next(P['n'])
+        f = stim.BandlimitedNoiseFactory(fs, P['seed'], level, P['fl'], P['fh'], P['rolloff'], P['pass_att'], P['stop_att'],
+                                         calibration=_mkcal(case['cal']))
     st = np.random.RandomState(P['seed'])
     ld = np.longdouble
     x0 = st.uniform(low=f.low, high=f.high, size=int(np.ceil(fs)))
@@ -290,7 +310,7 @@ def _iir_roundoff(case, level, y):
 
 def _level_tol(case, res):
     """round-off of the arithmetic the stimulus uses, relative to the peak"""
-    if case['type'] == 'bandlimited_noise':
+    if case['type'] in ('bandlimited_noise', 'BandlimitedNoiseFactory'):
         return max(1e-12, 20 * res.get('kappa', 0.0))
     return LEVEL_TOL.get(case['type'], 1e-12)
 
@@ -692,15 +712,21 @@ def _stim_case(rng, t, which, fs=None):
     elif t == 'bandlimited_noise':
         fs = 100000.0
         P = {'fl': rng.choice([1000.0, 2000.0, 4000.0]), 'fh': rng.choice([6000.0, 8000.0]), 'dur': 0.2, 'seed': rng.randint(1, 99)}
+    elif t == 'BandlimitedNoiseFactory':
+        fs = 100000.0
+        fl, fh = rng.choice([(2000.0, 8000.0), (4000.0, 8000.0), (4000.0, 6000.0)])
+        P = {'fl': fl, 'fh': fh, 'n': rng.choice([64, 300]), 'seed': rng.randint(1, 99), 'discard': rng.random() < 0.5,
+             'rolloff': rng.choice([1, 2]), 'pass_att': rng.choice([1, 3]), 'stop_att': rng.choice([80, 60])}
     elif t == 'bandlimited_fir_noise':
-        P = {'fl': 2000.0, 'fh': rng.choice([4000.0, 8000.0]), 'dur': 0.005, 'ntaps': 201, 'seed': rng.randint(1, 99),
-             'equalize': rng.random() < 0.5}
+        P = {'fl': 2000.0, 'fh': rng.choice([4000.0, 8000.0]), 'dur': 0.005, 'ntaps': rng.choice([201, 101]), 'seed': rng.randint(1, 99),
+             'equalize': rng.random() < 0.5, 'window': rng.choice(['hann', 'hamming', 'blackman']),
+             'max_correction': rng.choice([None, 6.0, 20.0])}         # None: the default np.inf
         if which is not None and rng.random() < 0.3:
             P['weighting'] = 'mouse'
     elif t == 'shaped_noise':
-        P = {'dur': 0.2, 'ntaps': 1001, 'seed': rng.randint(1, 99)}
+        P = {'dur': 0.2, 'ntaps': 1001, 'seed': rng.randint(1, 99), 'window': rng.choice(['hann', 'hamming'])}
     elif t == 'notch_noise':
-        P = {'f': rng.choice([4000.0, 8000.0]), 'q': 1.33, 'dur': 0.2, 'seed': rng.randint(1, 99)}
+        P = {'f': rng.choice([4000.0, 8000.0]), 'q': rng.choice([1.33, 5.0]), 'dur': 0.2, 'seed': rng.randint(1, 99)}
     elif t in ('wav', 'WavFileFactory'):
         file_fs = rng.choice([25000.0, 100000.0])
         P = {'file': rng.choice(['i16', 'f32']), 'file_fs': file_fs, 'out_fs': rng.choice([file_fs, file_fs, file_fs / 2]),
@@ -724,7 +750,7 @@ PLAN = {
     'SAMToneFactory': ['flat', 'interp', 'point'], 'chirp': ['flat', 'interp', 'point', None], 'ChirpFactory': ['flat', 'interp'],
     'click': ['flat', 'interp', 'point'], 'bandlimited_click': ['flat', 'interp', None], 'BandlimitedClickFactory': ['flat', 'interp'],
     'broadband_noise': ['flat', 'interp', None], 'BroadbandNoiseFactory': ['flat', 'interp', None],
-    'bandlimited_noise': ['flat', 'interp', None], 'bandlimited_fir_noise': ['flat', 'interp'], 'shaped_noise': ['flat', 'interp', None],
+    'bandlimited_noise': ['flat', 'interp', None], 'BandlimitedNoiseFactory': ['flat', 'interp', None], 'bandlimited_fir_noise': ['flat', 'interp'], 'shaped_noise': ['flat', 'interp', None],
     'notch_noise': ['flat', 'interp', None], 'wav': ['flat', 'interp', 'point'], 'WavFileFactory': ['flat', 'point'],
     'SquareWaveFactory': [None], 'cos2_tone': ['flat', 'point'], 'gate_noise': ['flat', 'interp'], 'sam_env_noise': ['flat'],
     'repeat_click': ['flat', 'point'],
@@ -810,6 +836,12 @@ def cases(tier, rng):
             reps = (1 if t in SLOW else 3) if quick else (6 if t in SLOW else 30)
             for _ in range(reps):
                 yield _stim_case(rng, t, which)
+    # both values of the start-up option of the IIR noise factory, whatever the draws above chose
+    for discard in (False, True):
+        for which in ('flat', None):
+            c = _stim_case(rng, 'BandlimitedNoiseFactory', which)
+            c['par']['discard'] = discard
+            yield c
     for which in ('flat', 'interp', 'point'):
         for _ in range(60 if quick else 1500):
             yield _rms_case(rng, 'tone_rms', which)
